@@ -215,6 +215,11 @@ func init() {
 				cfgEdit{"QuotientDegreeFactor", d, "common"}, cfgEdit{"NumPartialProducts", d, "common"})
 		}
 		edits = append(edits, cfgEdit{"ArityDropLast", 0, "params"}, cfgEdit{"ArityAppend4", 0, "params"})
+		// coordinated pairs that keep the LDE size (degree_bits + rate_bits) and change only what
+		// follows from degree_bits alone (the prescribed final-polynomial length)
+		for _, d := range []int{1, 2, 3, -1} {
+			edits = append(edits, cfgEdit{"DegreeUpRateDown", d, "params"}, cfgEdit{"DegreeUpRateDown", d, "both"})
+		}
 		return &fw.Prop{
 			ID:    "C20",
 			Level: "exploration",
@@ -464,6 +469,13 @@ func init() {
 						in.Common.FriParams.DegreeBits += d
 					case "DegreeBitsCommon":
 						in.Common.DegreeBits += d
+					case "DegreeUpRateDown":
+						in.Common.FriParams.DegreeBits += d
+						in.Common.FriParams.Config.RateBits -= d
+						if w == "both" {
+							in.Common.DegreeBits += d
+							in.Common.Config.FriConfig.RateBits -= d
+						}
 					case "DegreeBitsBoth":
 						in.Common.FriParams.DegreeBits += d
 						in.Common.DegreeBits += d
